@@ -87,8 +87,14 @@ def warnings_for(fmt, prob, kind, layout, k, raw):
     opts.docformat = fmt
     s = PJ.build({"m": (src, False)}, opts=opts)
     o = s.allobjects[NAMES[kind]]
-    epydoc2stan.format_docstring(o)
-    epydoc2stan.format_summary(o)
+    if (k + layout) % 2:
+        # a real run writes the summary pages before the individual pages: the summary is produced first (which of the two orders is
+        # used varies with the layout, so that both occur for every kind)
+        epydoc2stan.format_summary(o)
+        epydoc2stan.format_docstring(o)
+    else:
+        epydoc2stan.format_docstring(o)
+        epydoc2stan.format_summary(o)
     if kind == "inherited":
         # a run renders every object: the base method, on whose page problems of its docstring are reported, as well
         b = s.allobjects["m.B.m"]
